@@ -16,6 +16,7 @@ TRUSTED = [
     "the byte search looks for the big-endian secret numbers (RSA d, primes, CRT values; ECDSA d; Ed25519 seed) in the recorded bytes and in their percent / base-64 / hex decodings at every alignment; an encrypted or otherwise transformed leak would not be seen",
     "x/crypto/ssh/agent keyring as the SSH agent (identities keyed by public blob, as OpenSSH's agent)",
     "tools/extract c19.go: pattern alternatives, rsaKeySize, serialisation / private-marshal / file-write tables",
+    "which agent: recording decoy keyrings listen at the conventional unix-socket places ($TMPDIR/ssh-*/agent.*, $TMPDIR/ssh-agent.sock, $HOME/.ssh/agent*, $HOME/.gnupg/S.gpg-agent.ssh, $XDG_RUNTIME_DIR/{ssh-agent.socket,openssh_agent,keyring/ssh,gnupg/S.gpg-agent.ssh}, /tmp/ssh-*/agent.*) with TMPDIR/HOME/XDG_RUNTIME_DIR pointing into a scratch directory; an agent contacted elsewhere is seen only through the success flag / the missing key file; the Windows named-pipe branch is not driven",
     "no Ed25519 CA in the generated daemon configuration: the optional Ed25519 request is answered 422 and the client goes on without it (key checks of the server still passed)",
 ]
 
